@@ -254,3 +254,44 @@ func VH_C12_Defaults() {
 	}
 	symCover("rendered")
 }
+
+// ---- C12.body: a macro call renders the macro's body ---------------------------------------------------
+
+var vhC12Bodies = []string{
+	"w {{ p }} x",
+	"w \\{{ p }} x{{ p }}",
+	"w \\{% if p %} x{{ q }}",
+	"{# {{ p }} #}c{{ q }}",
+	"{% verbatim %}{{ p }}{% endverbatim %}|{{ p }}",
+	"a{{ '{{ p }}' }}b{{ p }}",
+	"{% if p %}[{{ p }}]{% else %}none{% endif %}{{ q|upper }}",
+	"{% for i in [p, q] %}{{ loop.index }}{{ i }}{% endfor %}",
+	"{{ p ~ '}}' ~ q }}",
+	"<a href=\"{{ p }}\">{{ q }}</a> {{ p }}{{ q }}",
+	"{{ p }}{{ p }}\n{{ q }}\t{{ q }}",
+}
+
+// VH_C12_Body: for 11 bodies (plain text with prints, backslash-escaped openers, comments, verbatim,
+// delimiters inside string literals, control structures, adjacent prints, line breaks) the macro called
+// with two symbolic arguments renders exactly what the body renders as a template of its own with the
+// parameters as context, through a direct call, _self, import and from-import.
+func VH_C12_Body() {
+	b := symChoice(len(vhC12Bodies))
+	symTag("body:" + vhC12Bodies[b])
+	pv, qv := symStringIn(1, "ab0"), symStringIn(1, "xy")
+	form := symChoice(4)
+	e := New()
+	e.RegisterString("body", vhC12Bodies[b])
+	lib := "{% macro m(p, q) %}" + vhC12Bodies[b] + "{% endmacro %}"
+	e.RegisterString("lib", lib)
+	main := []string{lib + "{{ m(a1, a2) }}", lib + "{{ _self.m(a1, a2) }}", "{% import 'lib' as l %}{{ l.m(a1, a2) }}", "{% from 'lib' import m as g %}{{ g(a1, a2) }}"}[form]
+	if e.RegisterString("main", main) != nil {
+		symAssert(false, "template-parses")
+		return
+	}
+	want, werr := e.Render("body", map[string]interface{}{"p": pv, "q": qv})
+	out, err := e.Render("main", map[string]interface{}{"a1": pv, "a2": qv})
+	symCover("rendered")
+	symAssert(werr == nil && err == nil, "renders")
+	symAssert(out == want, "macro-renders-its-body")
+}
